@@ -27,16 +27,28 @@ MaskWindow(o, start, len) == {i \in 1..Width(o) : i - 1 >= start /\ i - 1 < star
 MaskHits(o, r, i, ref, nogap, noref) ==
   /\ ~(nogap /\ o.rows[r].s[i] = GAP)
   /\ ~(noref /\ o.rows[r].s[i] = (IF ref # <<>> THEN RowOfName(o, ref).s[i] ELSE POINT))
-\* relation between pre and post (MAJ ties leave a choice per column)
-AllowedMask(pre, post, ref, start, len, repl, nogap, noref) ==
+\* relation between pre and post for a set W of masked columns (1-based; MAJ ties leave a choice per column)
+AllowedMaskCols(pre, post, ref, W, repl, nogap, noref) ==
   /\ post.k = pre.k /\ post.al = pre.al /\ post.len = pre.len /\ NamesOf(post) = NamesOf(pre)
   /\ \A r \in 1..Len(pre.rows) : Len(post.rows[r].s) = Len(pre.rows[r].s)
   /\ \A i \in 1..Width(pre) :
-       IF i \in MaskWindow(pre, start, len)
+       IF i \in W
        THEN \E rep \in (IF ReplKind(repl) = "maj" THEN MajSet(Col(pre, i)) ELSE {FixedRepl(pre, repl)}) :
               \A r \in 1..Len(pre.rows) :
                  post.rows[r].s[i] = IF MaskHits(pre, r, i, ref, nogap, noref) THEN rep ELSE pre.rows[r].s[i]
        ELSE \A r \in 1..Len(pre.rows) : post.rows[r].s[i] = pre.rows[r].s[i]
+AllowedMask(pre, post, ref, start, len, repl, nogap, noref) ==
+  AllowedMaskCols(pre, post, ref, MaskWindow(pre, start, len), repl, nogap, noref)
+\* a list of single positions (`mask --pos`): given on the reference when there is one, every one of them converted on
+\* the alignment AS IT IS BEFORE any masking ("exactly the residues at the requested positions")
+MaskPosErr(o, ref, pos, repl, noref) ==
+  \/ ReplErr(o, repl) \/ (ref # <<>> /\ ~HasName(o, ref))
+  \/ \E k \in 1..Len(pos) : IF ref # <<>> THEN RefCoordinatesErr(o, ref, pos[k], 1) ELSE (pos[k] < 0 \/ pos[k] > o.len)
+MaskPosCols(o, ref, pos) ==
+  IF ref # <<>> THEN {NonGapPos(RowOfName(o, ref).s)[pos[k] + 1] : k \in 1..Len(pos)}
+  ELSE {pos[k] + 1 : k \in {k \in 1..Len(pos) : pos[k] < o.len}}
+AllowedMaskPos(pre, post, ref, pos, repl, nogap, noref) ==
+  AllowedMaskCols(pre, post, ref, MaskPosCols(pre, ref, pos), repl, nogap, noref)
 
 \* MaskOccurences(ref, max, repl): non-gap residues whose count in their column - ignoring the
 \* reference row and residues equal to it (unless the reference has a gap there) - is <= max.
